@@ -27,7 +27,7 @@ ASSUMPTIONS = [
 SIMPLIFY = {"o": lambda v: "pass" if v in OUTCOMES else None}
 WATCHDOG_S = {"quick": 900, "thorough": 4 * 3600}
 
-ASYNC_OK = ("pass", "fail", "raise", "pending", "skip")
+ASYNC_OK = ("pass", "fail", "raise", "raise_timeout", "pending", "skip")
 
 
 def build(case):
@@ -55,7 +55,7 @@ def build(case):
             kw = "Given"
         s = {"kw": kw, "uid": "q%d" % i, "o": o}
         if case.get("async") and o in ASYNC_OK:
-            s["a"] = True
+            s["a"] = 2 if i % 2 else True       # both documented decorator styles (with / without timeout=)
         if o == "act":
             s["acts"] = case["acts"][str(i)]
         return s
